@@ -141,6 +141,7 @@ func ruleHasBodyGate(c *Ctx, rule string) {
 func runC06(c *Ctx) {
 	p := c.P
 	ruleHasBodyGate(c, "R06.0")
+	ruleContentTypeAccessorParses(c, "R06.1")
 	ruleRoutableAPIDelegates(c, "R06.4", "ConsumersFor", "DefaultConsumes")
 
 	type gate struct {
@@ -326,6 +327,22 @@ func runC06(c *Ctx) {
 	}
 	bv := p.Fn("(*rt/middleware.Context).BindValidRequest")
 	accEmpty := factLenPositive(isErrSliceLen, false)
+	// the consumer is (re)selected for EVERY admitted body: between a successful admission and the binder there is always
+	// the table lookup under this request's media type — a consumer left on the route value by an earlier binding is never
+	// kept in its place
+	for _, b := range callsIn(bv, "(rt/middleware.RequestBinder).BindRequest") {
+		for _, vc := range callsIn(bv, "rt/middleware.validateContentType") {
+			if vc.Value() == nil {
+				continue
+			}
+			refused := anyFact(factNil(vIs(vc.Value()), false), factLenPositive(isErrSliceLen, true))
+			kept := pathExists(bv, vc, b, refused, func(in ssa.Instruction) bool {
+				lk, ok := in.(*ssa.Lookup)
+				return ok && strings.HasPrefix(typeStr(lk.X.Type()), "map[string]rt.Consumer")
+			})
+			c.obI("R06.1", b, "consumer-selected-for-every-admitted-body", !kept, "after a successful admission the binder is reached only through the consumer-table lookup for this request's media type", "the binder can be reached after admission without a consumer having been looked up (one left on the route by an earlier request would be used)")
+		}
+	}
 	for _, b := range callsIn(bv, "(rt/middleware.RequestBinder).BindRequest") {
 		c.obI("R06.2", b, "typed-bind-needs-empty-accumulator", guardedBy(b, nil, accEmpty), "the generated binder (which consumes the body) runs only when no gate recorded an error", "BindRequest reachable although an error was recorded")
 		for _, k := range callsIn(bv, "rt/middleware.validateContentType", "rt.ContentType") {
@@ -712,4 +729,25 @@ func rulePeekCountsOnly(c *Ctx, rule string) {
 		}
 	}
 	c.obRF(rule, hc, "peeks", n >= 1, "HasContent peeks into the buffered reader", "")
+}
+
+// ruleUntypedGateForEveryBody: the reflective content-type stage — which is also where the route's consumer is selected —
+// is skipped only when HasBody said no or an earlier stage already refused the request: never on the strength of the
+// method or anything else (an operation that declares a body under GET still gets its consumer). For C19.
+func ruleUntypedGateForEveryBody(c *Ctx, rule string) {
+	f := c.P.Fn("(*rt/middleware.validation).contentType")
+	cts := callsIn(f, "(*rt/middleware.Context).ContentType")
+	if len(cts) != 1 {
+		c.obRF(rule, f, "gate-parses-content-type", false, "the stage parses the Content-Type header once", fmt.Sprintf("%d", len(cts)))
+		return
+	}
+	hasBody := factBool(vOrigins(oCall(-1, "rt.HasBody")), true)
+	earlier := factLenPositive(vFieldLoad("rt/middleware.validation", "result", nil), true)
+	skipped := false
+	for _, r := range realReturns(f) {
+		if pathExists(f, nil, r, anyFact(negate(hasBody), earlier), isOneOf(cts[0])) {
+			skipped = true
+		}
+	}
+	c.obI(rule, cts[0], "consumer-stage-for-every-body", !skipped, "every request for which HasBody answers true goes through the content-type stage, whatever its method: that is where its consumer is selected", "the stage can be skipped although the request carries a body: the binder is then handed no consumer")
 }
